@@ -87,7 +87,7 @@ def scalar_factor_info(t):
     """Does the tree contain a Product with ScalarMul factors / scalar op, and a transpose-Gram on complex data?"""
     kinds = opsfam.kinds_in(t)
     return {
-        "has_scalar": bool(kinds & {"ScalarMul", "op_smul", "op_rsmul", "op_div", "op_neg", "op_rdiv"}),
+        "has_scalar": bool(kinds & {"ScalarMul", "op_smul", "op_rsmul", "op_div", "op_neg", "op_rdiv", "op_sub"}),  # A - B is A + (-1) * B
         "has_gramT": "GramT" in kinds,
         "complex": bool(opsfam.dts_in(t) & {"c64", "c128"}),
     }
